@@ -106,12 +106,12 @@ func (s *Lua) Exec(ctx context.Context, c Client, keys, args []string) (resp Red
 	// Determine which SHA-1 to use.
 	if s.loadSha1 {
 		// Check if SHA-1 is already loaded.
-		s.sha1Mu.RLock()
+		verifRLock(ctx, &s.sha1Mu)
 		scriptSha1 = s.sha1
 		s.sha1Mu.RUnlock()
 
 		if scriptSha1 == "" {
-			s.sha1Mu.Lock()
+			verifWLock(ctx, &s.sha1Mu)
 			if s.sha1 == "" { // the double check
 				result := c.Do(ctx, c.B().ScriptLoad().Script(s.script).Build().ToRetryable())
 				if shaStr, err := result.ToString(); err == nil {
@@ -187,7 +187,7 @@ func (s *Lua) ExecMulti(ctx context.Context, c Client, multi ...LuaExec) (resp [
 		// Set SHA-1 from Redis if sha1 loading is enabled.
 		if s.loadSha1 {
 			if sha := sha1Result.Load(); sha != nil {
-				s.sha1Mu.Lock()
+				verifWLock(ctx, &s.sha1Mu)
 				if s.sha1 == "" {
 					s.sha1 = sha.(string)
 				}
@@ -196,7 +196,7 @@ func (s *Lua) ExecMulti(ctx context.Context, c Client, multi ...LuaExec) (resp [
 		}
 	}
 
-	s.sha1Mu.RLock()
+	verifRLock(ctx, &s.sha1Mu)
 	scriptSha1 = s.sha1
 	s.sha1Mu.RUnlock()
 
